@@ -54,3 +54,10 @@ Definition chk_json_validate (obj attr : Z) (v : tval) (kept : bool) (owner oatt
   Bool.eqb (json_keeps obj attr v) kept && opt_eqb (fun a b => (fst a =? fst b) && (snd a =? snd b)) (tv_notifies (json_validate obj attr v)) (Some (owner, oattr)).
 Definition chk_array_validate (obj attr : Z) (v : tval) (kept : bool) (owner oattr : Z) : bool :=
   Bool.eqb (array_keeps obj attr v) kept && opt_eqb (fun a b => (fst a =? fst b) && (snd a =? snd b)) (tv_notifies (array_validate obj attr v)) (Some (owner, oattr)).
+
+(* Oracle / MySQL time stored as an interval *)
+Definition chk_ora_time (t : time_v) (td : Z * Z * Z) : bool :=
+  td_eqb (ora_time_py2sql t) (mk3 td) && opt_eqb time_eqb (interval_time_sql2py (fst (fst td)) (snd (fst td)) (snd td)) (Some t).
+Definition chk_interval_time (td : Z * Z * Z) (r : option time_v) : bool :=
+  opt_eqb time_eqb (interval_time_sql2py (fst (fst td)) (snd (fst td)) (snd td)) r.
+Definition chk_ora_bool (b : bool) (z : Z) : bool := (ora_bool_py2sql b =? z) && Bool.eqb (ora_bool_sql2py z) b.
